@@ -26,3 +26,12 @@ func init() {
 	props["C10"] = PropSpec{Title: "img", Explanation: "tmp", Rules: []Rule{{"media", "m", ruleMediaFresh}}}
 	props["C11"] = PropSpec{Title: "hf", Explanation: "tmp", Rules: []Rule{{"keyed", "k", func(r *Run) { ruleKeyedInsert(r, nil) }}}}
 }
+
+func init() {
+	props["C05"] = PropSpec{Title: "save", Explanation: "tmp", Rules: []Rule{{"save-err", "f", ruleSaveErr}, {"save-sibling", "a", ruleSaveSibling}}}
+}
+
+func init() {
+	props["C06"] = PropSpec{Title: "open", Explanation: "tmp", Rules: []Rule{{"loop-token", "f", ruleLoopToken}, {"recursion", "a", ruleReaderRecursion}, {"init-body", "i", ruleInitBody}}}
+	props["C04"] = PropSpec{Title: "nondestructive", Explanation: "tmp", Rules: []Rule{{"run-container", "f", ruleRunContainer}}}
+}
